@@ -20,3 +20,14 @@ void h_tag19(void) { vec_u8 *pkt; tmcg_openpgp_packet_ctx_t *out; tmcg_openpgp_b
   __CPROVER_assert(r != 19, "REACHABILITY-CANARY (must fail): a packet body exists that is decoded"); }
 void h_tag20(void) { vec_u8 *pkt; tmcg_openpgp_packet_ctx_t *out; tmcg_openpgp_byte_t r = PacketDecodeTag20(pkt, out);
   __CPROVER_assert(r != 20, "REACHABILITY-CANARY (must fail): a packet body exists that is decoded"); }
+void h_tag1(void) { vec_u8 *pkt; tmcg_openpgp_packet_ctx_t *out; tmcg_openpgp_byte_t r = PacketDecodeTag1(pkt, out);
+  __CPROVER_assert(r != 1, "REACHABILITY-CANARY (must fail): a packet body exists that is decoded"); }
+void h_tag3(void) { vec_u8 *pkt; tmcg_openpgp_packet_ctx_t *out; tmcg_openpgp_byte_t r = PacketDecodeTag3(pkt, out);
+  __CPROVER_assert(r != 3, "REACHABILITY-CANARY (must fail): a packet body exists that is decoded"); }
+void h_tag614(void) { vec_u8 *pkt; tmcg_openpgp_packet_ctx_t *out; tmcg_openpgp_byte_t tag; tmcg_openpgp_byte_t r = PacketDecodeTag614(pkt, tag, out);
+  __CPROVER_assert(r != 6 || tag != 6, "REACHABILITY-CANARY (must fail): a packet body exists that is decoded"); }
+void h_subdecode(void) { vec_u8 *in; int verbose; tmcg_openpgp_packet_ctx_t *out; tmcg_openpgp_byte_t r = SubpacketDecode(in, verbose, out);
+  __CPROVER_assert(r != 32, "REACHABILITY-CANARY (must fail): an embedded-signature subpacket is decoded"); }
+void h_tag57(void) { vec_u8 *pkt; tmcg_openpgp_packet_ctx_t *out; tmcg_openpgp_byte_t tag; vec_mpi *qual, *xq, *v_i; vec_str *capl; vec_vec_mpi *c_ik;
+  tmcg_openpgp_byte_t r = PacketDecodeTag57(pkt, tag, out, qual, xq, capl, v_i, c_ik);
+  __CPROVER_assert(r != 5 || tag != 5, "REACHABILITY-CANARY (must fail): a packet body exists that is decoded"); }
